@@ -604,10 +604,10 @@ func (w *c16Worker) flagCase(T reflect.Type, tmpl reflect.Value, dt *dials.Type,
 	tagEnc := encs[r.Intn(len(encs))]
 	// discover the registered flags
 	type fl struct {
-		name  string
-		short string
+		name   string
+		short  string
 		isBool bool
-		typ   string
+		typ    string
 	}
 	var flags []fl
 	newTmpl := func() any {
